@@ -226,7 +226,7 @@ func (cc *checkCtx) run(writeBaseline bool) int {
 			}
 		}
 	}
-	if cc.prop == "C12" || cc.prop == "C17" || cc.prop == "C14" || cc.prop == "C04" || cc.prop == "C02" {
+	if cc.prop != "" {
 		rep := m.packageScan()
 		var keep []*Obligation
 		for _, o := range rep.Obligs {
